@@ -43,6 +43,8 @@ class C07Suite(mc.MutexSuite):
                     msgs.append("grant: request a%d r%d was never granted" % (a, r))
         if len(i["done"]) != len(set(i["done"])):
             msgs.append("resume: a contender ran to its end twice")
+        if i["final"] and ("slot=armed" in i["final"] or "aux=locked" in i["final"] or "req=free" not in i["final"]):
+            msgs.append("ownership: every contender is done but an ownership was never given up (%s)" % " ".join(i["final"]))
         return msgs
 
 
@@ -53,13 +55,18 @@ class C07(Spec):
     technique = "Lean 4 invariant proof over all schedules of a micro-step model + step-for-step differential replay on the real header under a baton scheduler"
     level_text = ("Lean 4 theorems over a micro-step model of cocls::mutex (one step per atomic operation: ready() CAS, publishing CAS loop, build_queue exchange, unlock fast-path CAS, "
                   "hand-over; any number of contenders, rounds, flavours and release styles, every schedule): at most one owner, each request granted at most once / exactly once at "
-                  "quiescence, a waiting coroutine resumed once and never while suspending. The model (including which OS thread runs which coroutine) is tied to mutex.h by replaying generated, "
+                  "quiescence, a waiting coroutine resumed once and never while suspending. Contenders work through mutex::ownership objects (own object or a slot shared by all "
+                  "contenders and guarded by the mutex; stored by construction / move-assignment / ownership(co_awaiter&&) / a callback awaiter granted inline; given up by release(), "
+                  "awaited release, destruction, move construction into a temporary, move-assignment of an empty or of another mutex' ownership): an armed object belongs to the unique "
+                  "owner, an ownership is never stored into an armed object, a mutex whose every ownership is gone is free or being handed over. The model (including which OS thread runs which coroutine) is tied to mutex.h by replaying generated, "
                   "exhaustively enumerated (2 contenders) and preemption-bounded (3 contenders) schedules on the unmodified header and diffing every operation line.")
     level_note = ("trusted: Lean kernel; hand-written list-level model (intrusive links abstracted to lists; pointer safety by ASan in the harness); baton shim (SC interleavings; memory "
                   "orders are C03's); the defect of the pinned commit (subscribe re-read the published awaiter) is repaired by a fix: commit and kept as a corpus schedule.")
     trusted_base = ["model lean/CoclsModel/Mutex.lean tied to mutex.h by step-for-step replay (harness/h_mutex.cpp, shim/verif_shim.h) against lean/Drivers/C07.lean",
                     "C++20 coroutine machinery and libstdc++ as specified"]
-    assumptions = ["interleavings are sequentially consistent (memory orders: C03)", "unlock is only called by the owner (asserted by the code)"]
+    assumptions = ["interleavings are sequentially consistent (memory orders: C03)",
+                   "an ownership object is touched only by the party that owns the mutex it is armed for / that was just granted it (the shared slot is state guarded by the mutex)",
+                   "the transfer of the theorems to OS threads excludes contenders that block their thread from inside a coroutine (Cfg.WFT); the agent-level theorems and the replay include them"]
 
     def suites(self):
         return [C07Suite()]
